@@ -20,6 +20,6 @@ func init() {
 		},
 	}, map[string]propSpec{
 		"C09": {level: "exploration", quickS: 50, thoroughS: 840,
-			probes: []string{"pull_success", "pull_failed", "push_success", "push_failed", "push_layer_uploaded", "push_layer_already_present", "push_manifest_accepted"}},
+			probes: []string{"pull_success", "pull_failed", "push_success", "push_failed", "push_layer_uploaded", "push_layer_already_present", "push_manifest_accepted", "crash_restarted", "tag_updated"}},
 	})
 }
